@@ -253,6 +253,17 @@ func valueEdgeFacts(b *ssa.BasicBlock, succ int) []string {
 			out = append(out, "false:"+nm)
 		}
 	}
+	// comparisons of a call result with a constant: "cmp:<callee>==<const>"
+	for _, a := range edgeAtoms(b, succ) {
+		if a.Const == nil || a.Const.Value == nil {
+			continue
+		}
+		if call, _ := callOf(a.V); call != nil {
+			if k := callKey(call); k != "" && (a.Op == token.EQL || a.Op == token.NEQ) {
+				out = append(out, "cmp:"+k+a.Op.String()+a.Const.Value.ExactString())
+			}
+		}
+	}
 	return out
 }
 
